@@ -139,3 +139,35 @@ class Memo:
             self.table[k] = make()
         self.calls.append((fname, args, self.table[k]))
         return self.table[k]
+
+
+class MonotoneQuantile:
+    """quantile-like library results: a fresh real per (data, level) that is
+    non-decreasing in the level for the same data (the only property of
+    np.quantile / np.percentile / norm.ppf / t.ppf the monotonicity lemmas use)."""
+
+    def __init__(self, name="quantile"):
+        self.name = name
+        self.by_data = {}
+
+    def __call__(self, data, level):
+        c = cur()
+        k = keyof(data)
+        lst = self.by_data.setdefault(k, [])
+        lk = keyof(level)
+        for (ok, ol, orr) in lst:
+            if ok == lk:
+                return orr
+        if not c.symbolic and c.has(self.name):
+            c.stubbed.append(self.name)
+        r = c.real(self.name)
+        for (ok, ol, orr) in lst:
+            c.assume_unchecked(land(implies_(ol <= level, orr <= r), implies_(level <= ol, r <= orr)))
+        lst.append((lk, level, r))
+        return r
+
+
+def implies_(a, b):
+    from symx.logic import implies
+
+    return implies(a, b)
